@@ -654,7 +654,8 @@ def run(ctx):
         if field is None:
             continue
         feed(field, cells, mon, flags)
-        if kind == "delimited" and i % 5 == 0:
+        if kind == "delimited" and i % 5 == 0 and not (rule != rule.strip() and type_name in ("RegEx", "Pattern", "DateTime")):
+            # (the CID loader strips the rule cell: surrounding blanks would change the meaning of these rules)
             end_to_end(ctx, mon, type_name, empty, length, rule, dec, ths, cells, flags)
     if ctx.tier == "thorough":
         length_sweep(ctx, mon)
